@@ -9,6 +9,9 @@ from __future__ import annotations
 import ast
 
 from sa import facts
+from sa.cfg import cfg_of
+from sa.flow import Expander
+from sa.model import walk_no_nested
 from sa.model import src, unmangle
 from sa.pat import match, same
 from . import sched, sched_fill, c02, c09
@@ -37,6 +40,10 @@ def check(ctx):
                    f"{n}: the work handed to the fill loop is max(estimate - spent, 0); a missing estimate of a leaf is default_estimate, "
                    f"missing spent is 0, both filled only when the value `is None` and before the subtraction", floor=3)
         ctx.guarded(o, lambda o, ps=ps: remaining(ctx, o, ps))
+
+        o = ctx.ob(f'{n}_default_estimate_kept', 'R8',
+                   f"{n}: the constructor stores default_estimate unchanged (only None may be replaced by 0)", floor=1)
+        ctx.guarded(o, lambda o, S=S: default_estimate_stored(ctx, o, S))
 
         o = ctx.ob(f'{n}_reserves_only_for_working_leaves', 'R5',
                    f"{n}: the fill loop is reachable only for non-milestone leaf tasks", floor=1)
@@ -142,6 +149,63 @@ def remaining(ctx, o, ps: PassShape):
                     o.refute(ps.f, st, st, f"the default {attr} is not filled in before the remaining work is computed")
                 else:
                     o.site(ps.f, st, f"{attr} defaults to {unmangle(want)} when None")
+
+
+def default_estimate_stored(ctx, o, S):
+    """the constructor keeps default_estimate as given (None may become 0): a conversion such as int(..) / round(..) changes the
+    work reserved for leaves without an estimate"""
+    prog = ctx.prog
+    init = prog.func(S['init'])
+    ex = Expander(prog, init, ctx.typer)
+    sts = facts.attr_stores(init, S['default_estimate'])
+    if not sts:
+        o.undecided(init, init.node, 'default_estimate', "default_estimate is not stored by the constructor")
+        return
+    CONV = ('int', 'round', 'abs', 'floor', 'ceil', 'trunc', 'bool')
+
+    def judge(v, param, where):
+        """'ok' | ('bad', text) | None"""
+        if isinstance(v, ast.Name) and v.id == param:
+            return 'ok'
+        if isinstance(v, ast.Constant) and v.value == 0:
+            return 'ok'
+        if isinstance(v, ast.IfExp):
+            a, b = judge(v.body, param, where), judge(v.orelse, param, where)
+            for x in (a, b):
+                if isinstance(x, tuple):
+                    return x
+            return 'ok' if a == 'ok' and b == 'ok' else None
+        if isinstance(v, ast.BoolOp) and isinstance(v.op, ast.Or) and all(judge(x, param, where) == 'ok' for x in v.values):
+            return 'ok'
+        if match(f"float({param})", v):
+            return 'ok'
+        if isinstance(v, ast.Call) and ((isinstance(v.func, ast.Name) and v.func.id in CONV) or
+                                        (isinstance(v.func, ast.Attribute) and v.func.attr in CONV)) and \
+                any(isinstance(x, ast.Name) and x.id == param for x in ast.walk(v)):
+            return ('bad', src(v))
+        return None
+    for st, tgt, val in sts:
+        v = ex.expand(val, cfg_of(init).node_of(st))
+        params = [p_ for p_ in init.params if any(isinstance(x, ast.Name) and x.id == p_ for x in ast.walk(v))]
+        res = judge(v, params[0], init) if len(params) == 1 else None
+        if res is None and isinstance(val, ast.Call):
+            tg = [ci for ci in ctx.cg.calls_in(init) if ci.node is val and ci.kind == 'call' and len(ci.targets) == 1]
+            if tg and len(val.args) == 1 and isinstance(val.args[0], ast.Name) and not isinstance(tg[0].targets[0].node, ast.Lambda):
+                h = tg[0].targets[0]
+                exh = Expander(prog, h, ctx.typer)
+                hp = h.params[0] if h.params else None
+                rs = [judge(exh.expand(r.value), hp, h) for r in walk_no_nested(h.node) if isinstance(r, ast.Return) and r.value is not None]
+                bad = [x for x in rs if isinstance(x, tuple)]
+                res = bad[0] if bad else ('ok' if rs and all(x == 'ok' for x in rs) else None)
+                if bad:
+                    res = ('bad', f"{bad[0][1]} in {h.qual}")
+        if res == 'ok':
+            o.site(init, st, f"default_estimate stored as given: {src(v)[:50]}")
+        elif isinstance(res, tuple):
+            o.refute(init, st, st, f"default_estimate is stored as `{res[1]}`: a fractional default is changed, so a leaf without an estimate gets "
+                                   f"another amount of work reserved than default_estimate - spent")
+        else:
+            o.undecided(init, st, st, f"default_estimate is stored as `{src(v)[:60]}`, a form the rule does not follow")
 
 
 def only_leaves(ctx, o, ps: PassShape):
